@@ -447,3 +447,8 @@ package dag
 //@     invariant [only-shrinks] forall q string :: { (q in repository.refs) } (q in repository.refs) ==> (q in old(repository.refs))
 
 // The goroutine of MergeAll lists the remote-tracking refs of exactly this remote and this namespace (C02, C15).
+
+// the operations of an entity are operation objects - never nil, never a nil pointer wrapped in the interface (assumed)
+//@ func Interface.Operations
+//@   modifies nothing
+//@   ensures [no-typed-nil] forall k int :: { result[k] } 0 <= k && k < len(result) ==> hasvalue(result[k])
